@@ -8,7 +8,7 @@ FAULT_MODES = ["before", "before", "after", "base", "dead"]
 
 
 @st.composite
-def reg_cases(draw, max_nodes=8, max_ops=6, faults=True, det_share=15, min_runs=1):
+def reg_cases(draw, max_nodes=8, max_ops=6, faults=True, det_share=15, min_runs=1, disturb_last=False):
     g = specs.Gen(draw, registry=True, opaque=False)
     n = draw(st.integers(2, max_nodes))
     # make sure there is something to store
@@ -39,6 +39,11 @@ def reg_cases(draw, max_nodes=8, max_ops=6, faults=True, det_share=15, min_runs=
             ops.append({"op": "update", "src": draw(st.sampled_from(pure))})
         else:
             ops.append({"op": "delete", "entry": draw(st.sampled_from(deletable))})
+    if disturb_last and (pure or deletable) and draw(st.sampled_from([True, True, True, False])):
+        if deletable and (not pure or draw(st.booleans())):
+            ops.append({"op": "delete", "entry": draw(st.sampled_from(deletable))})
+        else:
+            ops.append({"op": "update", "src": draw(st.sampled_from(pure))})
     # always end with a plain successful run so the history is judged
     ops.append({"op": "run", "cfg": draw(specs.run_configs(nodes=len(nodes))), "output": g.output(),
                 "sched": draw(harness.schedules(real_share=100 - det_share))})
